@@ -269,14 +269,16 @@ CHECKS = {
     "C14": dict(
         engine="Mutability",
         category="model_checking",
-        text="Mutability.tla's state graph enumerates every well-typed place chain (12 roots: := / "
+        text="Mutability.tla's state graph enumerates every well-typed place chain (19 roots: := / "
              ":: locals, parameter, global, ^mut / ^ pointers held by :=, ::, annotated locals, "
-             "parameters and call results; steps: field, index, deref, auto-deref field / index, "
+             "parameters and call results, and the four pointer-to-pointer types ^^S, ^ ^mut S, "
+             "^mut ^S, ^mut ^mut S as locals and parameters; steps: field, index, deref, "
+             "(multi-level) auto-deref field / index, "
              "paren, #unwrap) and prescribes its mutability (last pointer crossed is ^mut, or no "
              "pointer crossed and a := root); TLC checks the incremental rule against the "
              "definitional one in every state. Each chain x {=, +=, ^mut} is one statement checked "
              "by the real front end; accepted iff mutable.",
-        note="quick: <= 3 steps (2219 statements), thorough: <= 4 steps. Front end only "
+        note="quick: <= 3 steps (3829 statements), thorough: <= 4 steps (8686). Front end only "
              "(visibility of accepted writes through aliases is covered by the executed-program "
              "checks). Trusted: TLC, the renderer in tools/props/c14.py, matching diagnostics to "
              "statements by line.",
